@@ -1415,6 +1415,7 @@ cdef class ParticleArray:
         if self.properties.has_key(prop_name):
             self.properties.pop(prop_name)
             self.default_values.pop(prop_name)
+            self.stride.pop(prop_name, None)
         if prop_name in self.output_property_arrays:
             self.output_property_arrays.remove(prop_name)
         if self.gpu is not None:
